@@ -291,6 +291,7 @@ func (g *gen) sliceReadOnly(s *ssa.Slice, seen map[ssa.Value]bool) bool {
 
 func (g *gen) run() {
 	fn := g.fn
+	g.w.curUnit = g.unit
 	ci := analyseCFG(fn)
 	g.numberLoops(ci)
 	g.numberCalls()
